@@ -35,11 +35,15 @@ EXPLANATION = 'rows-iff-spec and spec-iff-automaton theorems (unbounded in T) ab
 
 
 def scenarios(seed, tier):
-    n = 300 if tier == 'quick' else 3000
+    n = 400 if tier == 'quick' else 4000
     rnd = random.Random(seed * 7919 + 6)
     kinds = ['build', 'build', 'build', 'pattern', 'portfolio']
     for i in range(n):
-        c = CH.gen_case(random.Random(rnd.getrandbits(48)), kind=kinds[i % 5], tmax=8 if tier == 'quick' else 10)
+        r1 = random.Random(rnd.getrandbits(48))
+        if i % 10 == 9:
+            c = CH.gen_focus_start_fuel(r1, tmax=8 if tier == 'quick' else 10)
+        else:
+            c = CH.gen_case(r1, kind=kinds[i % 5], tmax=8 if tier == 'quick' else 10)
         c['_tier'] = tier
         yield 'chp%d' % i, c
 
